@@ -61,9 +61,9 @@ pub fn run(ctx: &Ctx) -> Report {
         hs.push((RSched { world: mk(Trig::Size(50), fw(8, ".zst"), None), threads: 2, per_thread: 3, size: 24, chunks: 2 }, 3));
     }
     run_scheds(ctx, &mut rep, &hs);
-    // the same histories in the build with the `background_rotation` feature (thorough tier)
+    // the same histories, and schedules over the roller's own rotation threads, in the build with the `background_rotation` feature
     if let Ok(bin) = std::env::var("VERIF_BG_BIN") {
-        let o = crate::engine::proc::run_child(std::path::Path::new(&bin), "c05bg", &[], &[], ctx.cap);
+        let o = crate::engine::proc::run_child(std::path::Path::new(&bin), "c05bg", &[ctx.tier.name().to_string()], &[], ctx.cap);
         let mut ok = false;
         for v in o.json_lines() {
             if v["kind"] == "stat" {
@@ -84,7 +84,7 @@ pub fn run(ctx: &Ctx) -> Report {
         }
     }
     rep.assume("truncate-mode restarts discard the active file by design (the property claims restarts in append mode); there the directory is compared with the model only");
-    rep.assume("background_rotation feature: histories are explored in the thorough tier with a quiescence wait after every operation; the interleavings of the library's own rotation thread are not enumerated");
+    rep.assume("background_rotation feature: histories are explored with a quiescence wait after every operation; the interleavings of the library's own rotation threads are enumerated for 1-2 writers x 2-3 rolling records (shimmed spawn/Mutex/Condvar)");
     rep
 }
 
@@ -96,11 +96,12 @@ pub fn replay(case: &serde_json::Value) -> Result<(), String> {
 }
 
 /// `child c05bg` — run in the binary built with the `background_rotation` feature
-pub fn child_bg() -> i32 {
+pub fn child_bg(args: &[String]) -> i32 {
+    let quick = args.first().map(|s| s.as_str()) != Some("thorough");
     let ctx = Ctx { id: "C05".into(), tier: Tier::Quick, seed: 0, start: std::time::Instant::now(), cap: std::time::Duration::from_secs(1200), verif_dir: "/nonexistent".into(), exe: std::env::current_exe().unwrap() };
     let mut rep = Report::new("model_checking");
     let ws: Vec<World> = worlds(Tier::Quick).into_iter().filter(|w| matches!(w.roller, RollerK::Fixed { .. })).collect();
-    run_worlds(&ctx, &mut rep, &ws, 4);
+    run_worlds(&ctx, &mut rep, &ws, if quick { 3 } else { 4 });
     // the roller's own rotation threads under the scheduler (spawn, mutex and condition variable are shimmed):
     // every record rolls, so a rotation is still in the background when the next one is requested
     let fw = |count: u32, ext: &'static str| RollerK::Fixed { base: 0, count, ext };
